@@ -47,6 +47,10 @@ CLAIMS['C13'] = dict(
    text="Theorems (Props/C13.v): sequence(desequence n d) = d for every byte string and positive chunk length, chunk sizes are exact; the DOS 3.x binary and token headers are exact inverse pairs under the 16-bit guards and packing is refused (error) outside them. Tie: desequence chunking and the DOS headers (incl. 65535/65536-byte inputs) must equal the extracted model. Impl-side oracle: every packer (DOS 3.x, ProDOS, Pascal, CP/M, FAT) x raw/bin/tok/txt/records/JSON round trips over boundary lengths, every load-address class, non-ASCII text, sparse chunk maps, plus a systematic sweep of text sizes around every 256/512/1024 boundary. ProDOS/Pascal/CP-M/FAT converters are covered by the oracle only.",
    technique="Coq proof (chunking, DOS headers, refusal guards) + extracted-model correspondence + packer round-trip oracle with boundary sweeps",
    design_ref='DESIGN.md section 5 C13')
+CLAIMS['C12'] = dict(
+   text="Theorems (Props/C12.v) on panic- and fuel-explicit transcriptions: the WOZ chunk walk terminates without panic on every byte string (each step advances >= 8 bytes), TD0 sector unpack and the IMD track-record parser and the DOS binary/token unpackers return data or an error for EVERY input and never exhaust their fuel. Tie: outcome class and values of get_next_chunk, Imd::from_bytes on track records, unpack_bin must equal the extracted model on structured malformed inputs. Impl-side search (catch_unwind + 8 s watchdog + per-case process on crash): truncations, single-field and multi-field corruptions, extensions and splices of valid images of every container x file system, random bytes under every extension, corrupted token streams into the three detokenizers and the disassembler, corrupted FileImage/Records JSON, arbitrary metadata key paths; mount, stat, catalog, tree, glob, get of listed files. File-system directory walks are covered by the search only.",
+   technique="Coq totality proofs on panic-explicit parser models + outcome-class correspondence + malformed-input search with watchdog",
+   design_ref='DESIGN.md section 5 C12')
 PLANNED = {f'C{i:02d}': 'check not built yet in this round (planned; see DESIGN.md section 10)' for i in range(1, 21)}
 
 def main():
